@@ -311,7 +311,7 @@ class HttpHeaderFieldValueExpectStaple(FieldsSemicolonSeparated):
     )
 
 
-class ContentSecurityPolicyDirectiveType(StringEnumParsable, enum.Enum):
+class ContentSecurityPolicyDirectiveType(StringEnumCaseInsensitiveParsable, enum.Enum):
     BASE_URI = FieldValueStringEnumParams(
         code='base-uri',
     )
@@ -571,7 +571,7 @@ class ContentSecurityPolicySourceHost(ParsableBase, Serializable):
         return ContentSecurityPolicySourceType.HOST
 
 
-class ContentSecurityPolicySourceKeyword(StringEnumParsable, enum.Enum):
+class ContentSecurityPolicySourceKeyword(StringEnumCaseInsensitiveParsable, enum.Enum):
     NONE = FieldValueStringEnumParams(code='\'none\'')
     REPORT_SAMPLE = FieldValueStringEnumParams(code='\'report-sample\'')
     SELF = FieldValueStringEnumParams(code='\'self\'')
@@ -904,7 +904,7 @@ class ContentSecurityPolicyDirectiveValueBase(ContentSecurityPolicyDirectiveBase
         return self._markdown_result(self.value, level)
 
 
-class ContentSecurityPolicyWebRtcType(StringEnumParsable, enum.Enum):
+class ContentSecurityPolicyWebRtcType(StringEnumCaseInsensitiveParsable, enum.Enum):
     ALLOW = FieldValueStringEnumParams(code='\'allow\'')
     BLOCK = FieldValueStringEnumParams(code='\'block\'')
 
@@ -919,7 +919,7 @@ class ContentSecurityPolicyDirectiveWebrtc(ContentSecurityPolicyDirectiveValueBa
         return ContentSecurityPolicyWebRtcType
 
 
-class ContentSecurityPolicyReferrerPolicy(StringEnumParsable, enum.Enum):
+class ContentSecurityPolicyReferrerPolicy(StringEnumCaseInsensitiveParsable, enum.Enum):
     NO_REFERRER = FieldValueStringEnumParams(code='"no-referrer"')
     NON_WHEN_DOWNGRADE = FieldValueStringEnumParams(code='"non-when-downgrade"')
     ORIGIN = FieldValueStringEnumParams(code='"origin"')
@@ -1040,7 +1040,7 @@ class ContentSecurityPolicyDirectivePluginTypes(ContentSecurityPolicyDirectiveLi
         ])
 
 
-class ContentSecurityPolicyTrustedTypeSinkGroup(StringEnumParsable, enum.Enum):
+class ContentSecurityPolicyTrustedTypeSinkGroup(StringEnumCaseInsensitiveParsable, enum.Enum):
     SCRIPT = FieldValueStringEnumParams(code='\'script\'')
 
 
@@ -1537,7 +1537,7 @@ class HttpHeaderFieldValueXXSSProtectionState(FieldValueComponentStringEnumOptio
         return HttpHeaderXXSSProtectionState
 
 
-class HttpHeaderXXSSProtectionMode(StringEnumParsable, enum.Enum):
+class HttpHeaderXXSSProtectionMode(StringEnumCaseInsensitiveParsable, enum.Enum):
     BLOCK = FieldValueStringEnumParams(
         code='block'
     )
